@@ -249,6 +249,12 @@ class Model:
             return {"Ge": a >= b, "Gt": a > b, "Le": a <= b, "Lt": a < b, "Add": a + b, "Sub": a - b}[op]
         if k == "Assign":
             lhs = peel(n["lhs"])
+            if call_is(lhs, "IndexMut::index_mut"):
+                slot, val = self.ev(lhs, env), self.ev(n["rhs"], env)
+                if isinstance(slot, tuple) and slot[0] == "slot":
+                    slot[1][slot[2]] = val
+                    return ()
+                raise Unrecognised("assignment to %r" % (slot,))
             if lhs.get("k") != "Var":
                 raise Unrecognised("assignment to " + show(n["lhs"]))
             env[lhs["id"]] = self.ev(n["rhs"], env)
